@@ -81,6 +81,15 @@ def run(check, an: Analysis):
     ifn = an.fn(INTERVAL)
     dfn = an.fn(DELAY)
     icallee, dcallee = Callee(ifn, None), Callee(dfn, None)
+    # both tick for ever: no way through either generator ends the iteration (for some
+    # period, zero say) -- they are left by an exception or by being closed
+    for label, callee in (('interval', icallee), ('delay', dcallee)):
+        ends = [p for p in an.paths(callee) if p.normal]
+        check.instance('A', '%s:never-ends' % label, not ends, where_fn(callee.fn),
+                       'the iteration has no end of its own: every path leaves by an '
+                       'exception (%d paths)' % len(an.paths(callee)),
+                       path=rules.path_lines(ends[0]) if ends else None,
+                       analysed=len(an.paths(callee)))
     period = ifn.node.args.args[0].arg
     ipaths = an.paths(icallee)
 
